@@ -794,4 +794,26 @@ theorem C27_view_history {Wire : Type} [DecidableEq Wire] (C : Codec Wire) (cfg 
     · rw [hempty] at hx; cases hx
   exact (key ops s h0 hok).1
 
+/-! ### non-vacuity: a history satisfying `RunOK` in which views do hold sessions -/
+namespace NonVacuity
+
+abbrev DWire := Tok × Bool
+def codec : Codec DWire := { enc := fun t => (t, true), dec := fun w => some w.1, dec_enc := fun _ => rfl }
+def cfg : Cfg := ⟨[119, 48], 0, 300⟩
+def s0 : Sys DWire := { W := { reg := {}, env := ⟨1000, 0, 0⟩ }, views := fun _ => {} }
+/-- view 1 opens; closes-and-reopens in one request; hands over to view 2; view 2 uses, then closes and opens again -/
+def ops : List SysOp :=
+  [.call 1 .anon [.open 1 none] false, .call 1 .anon [.close, .open 2 none, .use] false, .handoff 1 2,
+   .call 2 .anon [.use] true, .setDraining true, .call 2 .anon [.open 3 none] false, .setDraining false,
+   .call 2 .anon [.close, .open 4 (some 5)] true]
+
+example : RunOK codec cfg 0 s0 ops := by
+  simp only [ops, RunOK, OpOK, List.forall_mem_cons, List.not_mem_nil, false_imp_iff, implies_true, and_true, SealFits, List.length_cons, List.length_nil]
+  decide
+
+example : ((s0.run codec cfg 0 ops).views 2).token.isSome = true ∧ ((s0.run codec cfg 0 ops).views 1).token = none ∧
+    (liveOf (s0.run codec cfg 0 ops).W.reg 2).length = 1 := by decide
+
+end NonVacuity
+
 end VgiVerif.C27
